@@ -73,3 +73,46 @@ def hint_matches(r, hint):
 NATIVE.update({"valid_hint": valid_hint, "valid_any_hint": valid_any_hint, "all_valid": all_valid,
                "all_valid_any": all_valid_any, "all_relays_valid": all_relays_valid,
                "wellformed_tcp": wellformed_tcp, "hint_matches": hint_matches})
+
+
+# ---- C06 / C07 (transit)
+def be_value(b):
+    return int.from_bytes(b, "big")
+
+
+def be_enc(v, n):
+    return int(v).to_bytes(n, "big")
+
+
+def min2(a, b):
+    return a if a < b else b
+
+
+def exc_class(x):
+    return type(x).__name__
+
+
+def _hkdf(key, length, info):
+    from wormhole.util import HKDF
+    return HKDF(key, length, CTXinfo=info)
+
+
+def hexl(b):
+    import binascii
+    return binascii.hexlify(b)
+
+
+def sender_hs(key):
+    return b"transit sender " + hexl(_hkdf(key, 32, b"transit_sender")) + b" ready\n\n"
+
+
+def receiver_hs(key):
+    return b"transit receiver " + hexl(_hkdf(key, 32, b"transit_receiver")) + b" ready\n\n"
+
+
+def ite(c, a, b):
+    return a if c else b
+
+
+NATIVE.update({"be_value": be_value, "be_enc": be_enc, "min2": min2, "exc_class": exc_class, "hkdf": _hkdf, "hexl": hexl,
+               "sender_hs": sender_hs, "receiver_hs": receiver_hs, "ite": ite})
